@@ -22,6 +22,7 @@ import (
 	"github.com/ipni/go-libipni/announce"
 	"github.com/ipni/go-libipni/announce/message"
 	"github.com/libp2p/go-libp2p"
+	pubsub "github.com/libp2p/go-libp2p-pubsub"
 	"github.com/libp2p/go-libp2p/core/host"
 	"github.com/libp2p/go-libp2p/core/peer"
 	"github.com/multiformats/go-multiaddr"
@@ -501,6 +502,57 @@ func replayLRU(b *behaviour) (key, detail string) {
 }
 
 // Run is "harness c09": -mode lru | receiver.
+// resendFails: a receiver that re-publishes direct announcements (WithResend) on a topic whose validator refuses them.  Delivery
+// does not depend on the re-publication: the announcement is delivered, once, and a second announcement of it is a duplicate.
+func resendFails(r *rep.Report) {
+	h, err := libp2p.New(libp2p.ListenAddrStrings("/ip4/127.0.0.1/tcp/0"))
+	if err != nil {
+		return
+	}
+	defer h.Close()
+	ctx, cancel := context.WithCancel(context.Background())
+	defer cancel()
+	ps, err := pubsub.NewGossipSub(ctx, h)
+	if err != nil {
+		return
+	}
+	const name = "/verif/rcv-resend-refused"
+	if err := ps.RegisterTopicValidator(name, func(context.Context, peer.ID, *pubsub.Message) pubsub.ValidationResult {
+		return pubsub.ValidationReject
+	}); err != nil {
+		return
+	}
+	topic, err := ps.Join(name)
+	if err != nil {
+		return
+	}
+	rcv, err := announce.NewReceiver(h, "", announce.WithTopic(topic), announce.WithResend(true))
+	if err != nil {
+		r.Diverge(rep.Divergence{Key: "resend-refused", Detail: "NewReceiver: " + err.Error()})
+		return
+	}
+	defer rcv.Close()
+	r.Eval(true)
+	for _, name := range []string{"a", "c"} {
+		c := mkCid(name)
+		pi := peer.AddrInfo{ID: ids.Peer("rcv-ok"), Addrs: []multiaddr.Multiaddr{pubAddr}}
+		dctx, dcancel := context.WithTimeout(ctx, 3*time.Second)
+		derr := rcv.Direct(dctx, c, pi)
+		nctx, ncancel := context.WithTimeout(ctx, 3*time.Second)
+		got, nerr := rcv.Next(nctx)
+		dcancel()
+		ncancel()
+		if derr != nil || nerr != nil || got.Cid != c || got.PeerID != pi.ID {
+			r.Diverge(rep.Divergence{Key: "resend-refused-not-delivered", Detail: fmt.Sprintf("the topic refused the re-publication of %s: Direct returned %v, Next returned %v (%v): an allowed, unseen announcement is delivered all the same", name, derr, got.Cid, nerr)})
+			return
+		}
+		if err := rcv.Direct(dctx, c, pi); err != nil && !errors.Is(err, context.Canceled) && !errors.Is(err, context.DeadlineExceeded) {
+			// a duplicate is dropped silently
+			r.Diverge(rep.Divergence{Key: "resend-refused-not-delivered", Detail: fmt.Sprintf("the duplicate of %s was answered with %v", name, err)})
+		}
+	}
+}
+
 func Run(args []string) *rep.Report {
 	fs := flag.NewFlagSet("c09", flag.ExitOnError)
 	file := fs.String("behaviours", "", "ndjson behaviours exported by TLC")
@@ -578,6 +630,9 @@ func Run(args []string) *rep.Report {
 	}
 	for k, v := range tolerated {
 		r.SetExtra(k, v)
+	}
+	if *mode == "receiver" && si == 0 {
+		resendFails(r)
 	}
 	return r
 }
